@@ -1056,11 +1056,24 @@ def _binary(op, x, y):
     except ValueError:
         raise ValueError(f"operands could not be broadcast together with shapes {xa.shape} {ya.shape}")
     out = _obj(ba.shape)
+    narrow = rdt.kind in "iu" and rdt.itemsize < 8 and op in ("+", "-", "*")
     for p in _np.ndindex(ba.shape):
-        out[p] = _elem_binary(op, ba[p], bb[p], xd, yd, rdt)
+        r = _elem_binary(op, ba[p], bb[p], xd, yd, rdt)
+        if narrow and isinstance(r, SInt):
+            r = _wrap_int(r, rdt)
+        out[p] = r
     if not xarr and not yarr:
         return out[()]
     return ndarray(out, rdt)
+
+
+def _wrap_int(r, dt):
+    """two's-complement wrap-around of integer arithmetic in a dtype narrower than 64 bits (int64 is treated as unbounded)"""
+    bits = 8 * dt.itemsize
+    lo = 0 if dt.kind == "u" else -(1 << (bits - 1))
+    if z3.is_int_value(r.v):
+        return SInt(((r.v.as_long() - lo) % (1 << bits)) + lo)
+    return SInt(z3.simplify((r.v - lo) % (1 << bits) + lo))
 
 
 def _weak(sd, ad):
